@@ -5,12 +5,13 @@
 (*   Reset  arch em hk att p os      start of an execution (fresh emitter)      *)
 (*   Call   k r hc th oi p os        one public API call and what it reported   *)
 (*   Probe  u f p os                 FreshEquivalent observation                *)
+(*   Finish u f cmp p os             consumers of the holder ran; reference run  *)
 (* An ABORT line (sanitizer report, crash, uncaught exception) is no event of   *)
 (* the contract and is therefore never consumed.                                *)
 EXTENDS EmitContract, TraceLib
 
 VARIABLE l
-tvars == <<proj, os, cfg, l>>
+tvars == <<proj, os, cfg, pend, l>>
 
 T == TraceLog
 Ev == T[l]
@@ -21,15 +22,20 @@ TInit == CInit /\ l = 1 /\ InitProgress
 TReset == /\ IsEv("Reset")
           /\ proj' = Ev.p
           /\ os' = Ev.os
-          /\ cfg' = [arch |-> Ev.arch, em |-> Ev.em, hk |-> Ev.hk, att |-> Ev.att]
+          /\ pend' = 0
+          /\ cfg' = [arch |-> Ev.arch, em |-> Ev.em, hk |-> Ev.hk, att |-> Ev.att, vi |-> Ev.vi]
 
 TCall == /\ IsEv("Call")
-         /\ Call(Ev.k, Ev.r, Ev.hc, Ev.th, Ev.oi, Ev.p, Ev.os)
+         /\ Call(Ev.k, Ev.r, Ev.hc, Ev.th, Ev.oi, Ev.p, Ev.os,
+                 IF Has(Ev, "vr") THEN Ev.vr ELSE 0, IF Has(Ev, "sh") THEN Ev.sh ELSE 0)
 
 TProbe == /\ IsEv("Probe")
           /\ Probe(Ev.u, Ev.f, Ev.p, Ev.os)
 
-TNext == TReset \/ TCall \/ TProbe
+TFinish == /\ IsEv("Finish")
+           /\ Finish(Ev.u, Ev.f, Ev.cmp, Ev.p, Ev.os)
+
+TNext == TReset \/ TCall \/ TProbe \/ TFinish
 TSpec == TInit /\ [][TNext]_tvars
 
 Progress == NoteProgress(l)
